@@ -1,2 +1,508 @@
-(* Model for C13 — to be written. Executable definitions only, no proofs. *)
-From WI Require Import Lib.Base Lib.Info.
+(* Model for C13: generic ASN.1 dump.  Executable definitions only, no proofs.
+
+   Go sources modelled (paths relative to the repository, go1.23.5 standard library):
+     encoding/asn1/asn1.go   parseBase128Int (307), parseTagAndLength (530), invalidLength (671),
+                             parseField into RawValue / bool / *big.Int / string / time.Time (678),
+                             parseBool (54), checkInteger (79), parseBigInt (135),
+                             parseObjectIdentifier (257), parseUTCTime (342), parseNumericString (389),
+                             parsePrintableString (408), parseUTF8String (481)
+     internal/asn1struct/raw.go   ParseRaw, Raw.TypeString, Raw.Value, oidString
+     internal/file/asn1.go        parseASN1Data, childrenAsInfo
+     internal/names/asn1.go       FromAsn1Tag (table regenerated into gen/Asn1Names.v)
+     internal/file/identifier.go  isBinaryASN1
+     internal/file/parsers.go     ASN1File
+
+   Every function takes [legacy : bool]: [true] is the code before the repairs made for
+   C13 (F16, F17, F34, UTCTime offset/seconds, OID arcs >= 2^31), kept for the refutation
+   witnesses; [false] is the code as it is now. *)
+From WI Require Import Lib.Base Lib.Info Lib.Utf8 Lib.Time gen.Asn1Names.
+Open Scope N_scope.
+
+(* ------------------------------------------------------------------ *)
+(* TLV trees                                                           *)
+(* ------------------------------------------------------------------ *)
+Inductive tlv : Type :=
+| Prim (class tag : N) (content : bytes)
+| Cons (class tag : N) (children : list tlv).
+
+Record hdr := mkhdr { h_class : N; h_comp : bool; h_tag : N; h_len : N }.
+
+(* ------------------------------------------------------------------ *)
+(* encoding/asn1: tag and length                                       *)
+(* ------------------------------------------------------------------ *)
+(* parseBase128Int (asn1.go:307).  [fuel] counts the iterations left before "shifted == 5";
+   the loop condition (offset < len) is tested first, as in Go. *)
+Fixpoint b128 (fuel : nat) (first : bool) (acc : N) (l : bytes) : result (N * bytes) :=
+  match l with
+  | [] => Err "truncated base 128 integer"
+  | b :: r =>
+      match fuel with
+      | O => Err "base 128 integer too large"
+      | S f =>
+          if first && (b =? 128) then Err "integer is not minimally encoded"
+          else
+            let acc' := acc * 128 + b mod 128 in
+            if b <? 128 then
+              (if 2147483647 <? acc' then Err "base 128 integer too large" else Ok (acc', r))
+            else b128 f false acc' r
+      end
+  end.
+Definition parse_base128 (l : bytes) : result (N * bytes) := b128 5 true 0 l.
+
+(* first part of parseTagAndLength (asn1.go:530-556): identifier octets *)
+Definition parse_tag (bs : bytes) : result (N * bool * N * bytes) :=
+  match bs with
+  | [] => Err "asn1: internal error in parseTagAndLength"
+  | b :: r =>
+      let class := b / 64 in
+      let comp := (b / 32) mod 2 =? 1 in
+      let t0 := b mod 32 in
+      if t0 =? 31 then
+        match parse_base128 r with
+        | Ok (t, r') => if t <? 31 then Err "non-minimal tag" else Ok (class, comp, t, r')
+        | Err e => Err e
+        | Panic e => Panic e
+        end
+      else Ok (class, comp, t0, r)
+  end.
+
+(* the long-form loop (asn1.go:572-593) *)
+Fixpoint len_bytes (n : nat) (acc : N) (l : bytes) : result (N * bytes) :=
+  match n with
+  | O => Ok (acc, l)
+  | S n' =>
+      match l with
+      | [] => Err "truncated tag or length"
+      | b :: r =>
+          if 8388608 <=? acc then Err "length too large"
+          else
+            let acc' := acc * 256 + b in
+            if acc' =? 0 then Err "superfluous leading zeros in length"
+            else len_bytes n' acc' r
+      end
+  end.
+
+(* second part of parseTagAndLength (asn1.go:557-601): length octets *)
+Definition parse_len (bs : bytes) : result (N * bytes) :=
+  match bs with
+  | [] => Err "truncated tag or length"
+  | lb :: r =>
+      if lb <? 128 then Ok (lb, r)
+      else
+        let nb := lb mod 128 in
+        if nb =? 0 then Err "indefinite length found (not DER)"
+        else
+          match len_bytes (N.to_nat nb) 0 r with
+          | Ok (len, r') => if len <? 128 then Err "non-minimal length" else Ok (len, r')
+          | Err e => Err e
+          | Panic e => Panic e
+          end
+  end.
+
+Definition parse_tl (bs : bytes) : result (hdr * bytes) :=
+  match parse_tag bs with
+  | Ok (c, comp, t, r) =>
+      match parse_len r with
+      | Ok (len, r') => Ok (mkhdr c comp t len, r')
+      | Err e => Err e
+      | Panic e => Panic e
+      end
+  | Err e => Err e
+  | Panic e => Panic e
+  end.
+
+(* bytes[offset : offset+length] guarded by invalidLength (asn1.go:671, 878-883): the first
+   [n] bytes and the remainder, or None when fewer than [n] bytes are left *)
+Fixpoint split_at_N (l : bytes) (n : N) : option (bytes * bytes) :=
+  if n =? 0 then Some ([], l)
+  else match l with
+       | [] => None
+       | x :: r => match split_at_N r (n - 1) with
+                   | Some (a, b) => Some (x :: a, b)
+                   | None => None
+                   end
+       end.
+
+(* asn1.Unmarshal(data, &RawValue{}) (asn1.go:1091, 678-690, 875-890): header, content, rest *)
+Definition parse_element (data : bytes) : result (hdr * bytes * bytes) :=
+  match data with
+  | [] => Err "sequence truncated"
+  | _ =>
+      match parse_tl data with
+      | Ok (h, r) =>
+          match split_at_N r (h_len h) with
+          | Some (content, rest) => Ok (h, content, rest)
+          | None => Err "data truncated"
+          end
+      | Err e => Err e
+      | Panic e => Panic e
+      end
+  end.
+
+(* internal/file/identifier.go:27 isBinaryASN1 *)
+Definition is_asn1 (data : bytes) : bool :=
+  match parse_element data with
+  | Ok (_, _, []) => true
+  | _ => false
+  end.
+
+(* ------------------------------------------------------------------ *)
+(* internal/asn1struct/raw.go: ParseRaw                                *)
+(* ------------------------------------------------------------------ *)
+Definition max_depth : N := asn1_max_depth.     (* regenerated from asn1struct.MaxDepth *)
+
+Definition is_nil {A} (l : list A) : bool := match l with [] => true | _ => false end.
+
+(* parseRaw(data, depth): the loop over the elements of [data]; [depth] is 1 for the
+   outermost call.  Legacy: no depth limit (the real code overflowed its stack instead, F34),
+   and an empty constructed value recursed into Unmarshal of no bytes, which fails (F16). *)
+Fixpoint parse_forest (legacy : bool) (fuel : nat) (depth : N) (data : bytes) : result (list tlv) :=
+  match fuel with
+  | O => Err "fuel"
+  | S f =>
+      if negb legacy && (max_depth <? depth) then Err "asn1struct: nesting too deep"
+      else
+        match parse_element data with
+        | Ok (h, content, rest) =>
+            let item :=
+              if h_comp h then
+                if negb legacy && is_nil content then Ok (Cons (h_class h) (h_tag h) [])
+                else match parse_forest legacy f (depth + 1) content with
+                     | Ok ch => Ok (Cons (h_class h) (h_tag h) ch)
+                     | Err e => Err e
+                     | Panic e => Panic e
+                     end
+              else Ok (Prim (h_class h) (h_tag h) content) in
+            match item with
+            | Ok it =>
+                match rest with
+                | [] => Ok [it]
+                | _ => match parse_forest legacy f depth rest with
+                       | Ok more => Ok (it :: more)
+                       | Err e => Err e
+                       | Panic e => Panic e
+                       end
+                end
+            | Err e => Err e
+            | Panic e => Panic e
+            end
+        | Err e => Err e
+        | Panic e => Panic e
+        end
+  end.
+
+Definition parse_raw (legacy : bool) (data : bytes) : result (list tlv) :=
+  parse_forest legacy (S (length data)) 1 data.
+
+(* ------------------------------------------------------------------ *)
+(* canonical encoder (DER identifier and length octets)                *)
+(* ------------------------------------------------------------------ *)
+Definition enc_b128 (t : N) : bytes :=
+  if t <? 128 then [t]
+  else if t <? 16384 then [128 + t / 128; t mod 128]
+  else if t <? 2097152 then [128 + t / 16384; 128 + (t / 128) mod 128; t mod 128]
+  else if t <? 268435456 then
+    [128 + t / 2097152; 128 + (t / 16384) mod 128; 128 + (t / 128) mod 128; t mod 128]
+  else
+    [128 + t / 268435456; 128 + (t / 2097152) mod 128; 128 + (t / 16384) mod 128;
+     128 + (t / 128) mod 128; t mod 128].
+
+Definition enc_tag (c : N) (comp : bool) (t : N) : bytes :=
+  let b0 := c * 64 + (if comp then 32 else 0) in
+  if t <? 31 then [b0 + t] else (b0 + 31) :: enc_b128 t.
+
+Definition enc_len (n : N) : bytes :=
+  if n <? 128 then [n]
+  else if n <? 256 then [129; n]
+  else if n <? 65536 then [130; n / 256; n mod 256]
+  else if n <? 16777216 then [131; n / 65536; (n / 256) mod 256; n mod 256]
+  else [132; n / 16777216; (n / 65536) mod 256; (n / 256) mod 256; n mod 256].
+
+Definition enc_hdr (c : N) (comp : bool) (t : N) (len : N) : bytes := enc_tag c comp t ++ enc_len len.
+
+Fixpoint encode_tlv (t : tlv) : bytes :=
+  match t with
+  | Prim c tag content => enc_hdr c false tag (N.of_nat (length content)) ++ content
+  | Cons c tag ch =>
+      let body := flat_map encode_tlv ch in
+      enc_hdr c true tag (N.of_nat (length body)) ++ body
+  end.
+Definition encode_forest (ts : list tlv) : bytes := flat_map encode_tlv ts.
+
+(* well-formedness: what Go's parser can represent *)
+Definition len_ok (n : nat) : bool := N.of_nat n <? 2147483648.
+Fixpoint tlv_ok (t : tlv) : bool :=
+  match t with
+  | Prim c tag content => (c <? 4) && (tag <? 2147483648) && bytes_ok content && len_ok (length content)
+  | Cons c tag ch =>
+      (c <? 4) && (tag <? 2147483648) && forallb tlv_ok ch && len_ok (length (flat_map encode_tlv ch))
+  end.
+Definition forest_ok (ts : list tlv) : bool := forallb tlv_ok ts.
+
+(* nesting depth: 1 for a primitive or an empty constructed element *)
+Fixpoint height (t : tlv) : N :=
+  match t with
+  | Prim _ _ _ => 1
+  | Cons _ _ ch => 1 + fold_right (fun x m => N.max (height x) m) 0 ch
+  end.
+Definition forest_height (ts : list tlv) : N := fold_right (fun x m => N.max (height x) m) 0 ts.
+
+(* [n] SEQUENCEs inside each other around a NULL (the F34 witness shape) *)
+Fixpoint nested (n : nat) : tlv :=
+  match n with
+  | O => Prim 0 5 []
+  | S k => Cons 0 16 [nested k]
+  end.
+
+(* ------------------------------------------------------------------ *)
+(* content decoders of encoding/asn1                                   *)
+(* ------------------------------------------------------------------ *)
+(* parseBool (asn1.go:54) *)
+Definition dec_bool (c : bytes) : option bool :=
+  match c with
+  | [0] => Some false
+  | [255] => Some true
+  | _ => None
+  end.
+
+(* checkInteger (asn1.go:79) *)
+Definition check_integer (c : bytes) : bool :=
+  match c with
+  | [] => false
+  | [_] => true
+  | b0 :: b1 :: _ =>
+      negb (((b0 =? 0) && (b1 <? 128)) || ((b0 =? 255) && (128 <=? b1)))
+  end.
+
+(* parseBigInt (asn1.go:135): negative numbers by complementing every byte, adding one, negating *)
+Definition dec_bigint (c : bytes) : option Z :=
+  if check_integer c then
+    match c with
+    | b0 :: _ =>
+        if 128 <=? b0 then
+          Some (- (Z.of_N (be_to_N (map (fun b => (255 - b)%N) c)) + 1))%Z
+        else Some (Z.of_N (be_to_N c))
+    | [] => None
+    end
+  else None.
+
+(* parseObjectIdentifier (asn1.go:257) - the decoder the legacy Raw.Value used: every
+   sub-identifier through parseBase128Int, hence limited to 2^31-1 and to five octets *)
+Fixpoint oid_arcs_legacy (fuel : nat) (l : bytes) : option (list N) :=
+  match l with
+  | [] => Some []
+  | _ =>
+      match fuel with
+      | O => None
+      | S f =>
+          match parse_base128 l with
+          | Ok (v, r) => match oid_arcs_legacy f r with
+                         | Some vs => Some (v :: vs)
+                         | None => None
+                         end
+          | _ => None
+          end
+      end
+  end.
+Definition split_first_arc (v : N) : list N :=
+  if v <? 80 then [v / 40; v mod 40] else [2; v - 80].
+Definition dec_oid_legacy (c : bytes) : option (list N) :=
+  match c with
+  | [] => None
+  | _ =>
+      match oid_arcs_legacy (length c) c with
+      | Some (v :: vs) => Some (split_first_arc v ++ vs)
+      | _ => None
+      end
+  end.
+
+(* internal/asn1struct/raw.go oidString (the repaired decoder): sub-identifiers of any size;
+   the last octet must end a sub-identifier and no sub-identifier starts with 0x80 *)
+Fixpoint oid_arcs (first : bool) (acc : N) (l : bytes) : option (list N) :=
+  match l with
+  | [] => if first then Some [] else None
+  | b :: r =>
+      if first && (b =? 128) then None
+      else
+        let acc' := acc * 128 + b mod 128 in
+        if b <? 128 then
+          match oid_arcs true 0 r with
+          | Some vs => Some (acc' :: vs)
+          | None => None
+          end
+        else oid_arcs false acc' r
+  end.
+Definition dec_oid (c : bytes) : option (list N) :=
+  match c with
+  | [] => None
+  | _ =>
+      match oid_arcs true 0 c with
+      | Some (v :: vs) => Some (split_first_arc v ++ vs)
+      | _ => None
+      end
+  end.
+
+Definition dotted (arcs : list N) : bytes := join [46] (map dec_of_N arcs).
+
+(* utf8.Valid *)
+Fixpoint utf8_valid_fuel (fuel : nat) (s : bytes) : bool :=
+  match fuel with
+  | O => true
+  | S f =>
+      match s with
+      | [] => true
+      | _ => match decode_rune s with
+             | (v, _, sz) => v && utf8_valid_fuel f (drop sz s)
+             end
+      end
+  end.
+Definition utf8_valid (s : bytes) : bool := utf8_valid_fuel (length s) s.
+
+(* isNumeric (asn1.go:399), isPrintable with asterisk and ampersand allowed (asn1.go:433) *)
+Definition is_numeric (b : N) : bool := ((48 <=? b) && (b <=? 57)) || (b =? 32).
+Definition is_printable (b : N) : bool :=
+  ((97 <=? b) && (b <=? 122)) || ((65 <=? b) && (b <=? 90)) || ((48 <=? b) && (b <=? 57)) ||
+  ((39 <=? b) && (b <=? 41)) || ((43 <=? b) && (b <=? 47)) ||
+  (b =? 32) || (b =? 58) || (b =? 61) || (b =? 63) || (b =? 42) || (b =? 38).
+
+(* parseUTCTime (asn1.go:342): time.Parse with layout "0601021504Z0700", then
+   "060102150405Z0700"; the value must re-serialise to the same text, which leaves exactly
+   the strict forms YYMMDDhhmm[ss](Z|+hhmm|-hhmm) with month 1..12, a day that exists in that
+   month (of the year 19YY for YY >= 69, else 20YY), hh < 24, mm < 60, ss < 60, zone hours
+   <= 24, zone minutes < 60 and a zone that is not +0000/-0000; years >= 2050 lose 100.
+   Result: Unix seconds of the instant and the zone offset in seconds east of UTC. *)
+Definition digit (b : N) : option Z := if (48 <=? b) && (b <=? 57) then Some (Z.of_N (b - 48)) else None.
+Definition num2 (a b : N) : option Z :=
+  match digit a, digit b with
+  | Some x, Some y => Some (10 * x + y)%Z
+  | _, _ => None
+  end.
+
+Definition is_leap (y : Z) : bool :=
+  ((y mod 4 =? 0) && (negb (y mod 100 =? 0) || (y mod 400 =? 0)))%Z.
+Definition days_in (m y : Z) : Z :=
+  (if m =? 2 then (if is_leap y then 29 else 28)
+   else if (m =? 4) || (m =? 6) || (m =? 9) || (m =? 11) then 30 else 31)%Z.
+
+(* zone suffix: Z, or sign and four digits *)
+Definition dec_zone (l : bytes) : option Z :=
+  match l with
+  | [90] => Some 0%Z
+  | [sg; h1; h2; m1; m2] =>
+      match num2 h1 h2, num2 m1 m2 with
+      | Some hh, Some mm =>
+          if ((hh <=? 24) && (mm <=? 59) && negb ((hh =? 0) && (mm =? 0)))%Z then
+            if sg =? 43 then Some ((hh * 60 + mm) * 60)%Z
+            else if sg =? 45 then Some (- ((hh * 60 + mm) * 60))%Z
+            else None
+          else None
+      | _, _ => None
+      end
+  | _ => None
+  end.
+
+Definition dec_utctime (s : bytes) : option (Z * Z) :=
+  match s with
+  | y1 :: y2 :: mo1 :: mo2 :: d1 :: d2 :: h1 :: h2 :: mi1 :: mi2 :: rest =>
+      match num2 y1 y2, num2 mo1 mo2, num2 d1 d2, num2 h1 h2, num2 mi1 mi2 with
+      | Some yy, Some mo, Some d, Some h, Some mi =>
+          let secs_zone :=
+            match rest with
+            | [_] | [_; _; _; _; _] => Some (0%Z, rest)
+            | s1 :: s2 :: z => match num2 s1 s2 with Some ss => Some (ss, z) | None => None end
+            | _ => None
+            end in
+          match secs_zone with
+          | Some (ss, z) =>
+              match dec_zone z with
+              | Some off =>
+                  let y := (if 69 <=? yy then 1900 + yy else 2000 + yy)%Z in
+                  if ((1 <=? mo) && (mo <=? 12) && (1 <=? d) && (d <=? days_in mo y) &&
+                      (h <? 24) && (mi <? 60) && (ss <? 60))%Z
+                  then
+                    let y' := (if 2050 <=? y then y - 100 else y)%Z in
+                    Some ((days_of_civil y' mo d * 86400 + h * 3600 + mi * 60 + ss - off)%Z, off)
+                  else None
+              | None => None
+              end
+          | None => None
+          end
+      | _, _, _, _, _ => None
+      end
+  | _ => None
+  end.
+
+(* "2006-01-02T15:04:05Z" on the UTC clock (repaired) / "2006-01-02T15:04Z" on the clock of the
+   zone the value was written in, the Z being literal (legacy) *)
+Definition fmt_utctime (legacy : bool) (sec off : Z) : bytes :=
+  if legacy then fmt_minutes_z (civil_of_unix sec off)
+  else let c := civil_of_unix sec 0 in fmt_date c ++ [84] ++ fmt_hms c ++ [90].
+
+(* ------------------------------------------------------------------ *)
+(* Raw.Value (raw.go), for an element without children                  *)
+(* ------------------------------------------------------------------ *)
+Definition hexs (c : bytes) : bytes := hex_of false c.
+
+(* the switch on the universal tag number; a failed typed decode falls back to hex *)
+Definition value_universal (legacy : bool) (tag : N) (c : bytes) : bytes :=
+  if tag =? 1 then
+    match dec_bool c with Some true => bs "true" | Some false => bs "false" | None => hexs c end
+  else if tag =? 2 then
+    match dec_bigint c with Some z => dec_of_Z z | None => hexs c end
+  else if tag =? 5 then
+    (if legacy || is_nil c then bs "null" else hexs c)
+  else if tag =? 6 then
+    match (if legacy then dec_oid_legacy c else dec_oid c) with
+    | Some arcs => dotted arcs
+    | None => hexs c
+    end
+  else if tag =? 12 then (if utf8_valid c then c else hexs c)
+  else if tag =? 18 then (if forallb is_numeric c then c else hexs c)
+  else if tag =? 19 then (if forallb is_printable c then c else hexs c)
+  else if tag =? 23 then
+    match dec_utctime c with Some (sec, off) => fmt_utctime legacy sec off | None => hexs c end
+  else hexs c.
+
+(* Legacy: the switch looked at the tag number only; the typed asn1.Unmarshal calls inside it
+   fail for a non-universal class (tags don't match), so every branch except NULL fell back to
+   hex for them - and [5] of any class was "null" (F17). *)
+Definition value (legacy : bool) (class tag : N) (c : bytes) : bytes :=
+  if class =? 0 then value_universal legacy tag c
+  else if legacy && (tag =? 5) then bs "null"
+  else hexs c.
+
+(* ------------------------------------------------------------------ *)
+(* names.FromAsn1Tag, Raw.TypeString                                    *)
+(* ------------------------------------------------------------------ *)
+Fixpoint lookup_name (t : N) (tbl : list (N * bytes)) : option bytes :=
+  match tbl with
+  | [] => None
+  | (k, v) :: r => if k =? t then Some v else lookup_name t r
+  end.
+Definition type_string_in (tbl : list (N * bytes)) (class tag : N) : bytes :=
+  if class =? 0 then
+    match lookup_name tag tbl with Some s => s | None => dec_of_N tag end
+  else dec_of_N tag.
+Definition type_string := type_string_in asn1_tag_names.
+
+(* ------------------------------------------------------------------ *)
+(* internal/file/asn1.go: childrenAsInfo, parseASN1Data; parsers.go: ASN1File *)
+(* ------------------------------------------------------------------ *)
+Fixpoint dump (legacy : bool) (t : tlv) : info :=
+  match t with
+  | Prim c tag content => Info (type_string c tag ++ bs ": " ++ value legacy c tag content) [] []
+  | Cons c tag ch => Info (type_string c tag) [] (map (dump legacy) ch)
+  end.
+
+Definition unknown_asn1 : info := Info (bs "unknown ASN.1 data") [] [].
+
+Definition describe (legacy : bool) (data : bytes) : info :=
+  match parse_raw legacy data with
+  | Ok ts => Info (bs "ASN.1 data") [] (map (dump legacy) ts)
+  | _ => unknown_asn1
+  end.
+
+(* ASN1File: parseDERData (the recognised key and certificate types; an oracle here) is tried
+   first, the generic dump only when it answers "unknown ASN.1 data" *)
+Definition asn1_file (legacy : bool) (der : info) (data : bytes) : info :=
+  if bytes_eqb (i_desc der) (bs "unknown ASN.1 data") then describe legacy data else der.
